@@ -9,7 +9,7 @@ PFX=${1:-}
 touch $OUTF
 for d in $DIR/seeded/${PFX}*; do
   [ -f "$d/patch.diff" ] || continue
-  name=$(basename $d); base=${name#R2-}; base=${base#R3-}; own=${base%%-*}
+  name=$(basename $d); base=${name#R2-}; base=${base#R3-}; base=${base#R4-}; own=${base%%-*}
   grep -v "^$name	" $OUTF > $OUTF.tmp; mv $OUTF.tmp $OUTF
   rel=$(grep "^$name " $DIR/tools/seeded_related.txt | cut -d' ' -f2-)
   for id in $own $rel; do
